@@ -15,6 +15,14 @@ def run(out, explore=0):
     # correspondence leg: the printer model (V.Puml.Linearise: networkx dfs_successors, reversed successor order, PATH nodes,
     # operator/event/kill rendering) applied to the PUMLGraph captured at write_puml_string must give exactly the emitted tokens
     if out.coverage.get("discharged"):
+        cl = cli_leg(out, 8 if out.tier == "quick" else 80)
+        out.coverage["cli_leg"] = dict(otel2puml_runs=len(cl["scs"]), files_checked=cl["files"], rejected=len(cl["bad"]))
+        for k, name, why in cl["bad"][:3]:
+            out.violation({"kind": "emitted file wrong (CLI)", "workflow": name, "why": why, "scenario": cl["scs"][k],
+                           "output": cl["results"][k]["pumls"].get(name) if name else None})
+        if cl["coq_failure"] and not out.violations:
+            out.violation({"kind": "certificate-evaluation-failed", "leg": "cli", "coq": cl["coq_failure"]}, no_failing_input=True)
+    if out.coverage.get("discharged"):
         n, mism, badhead, fails = L.coq_linearise(items)
         out.coverage["printer_leg"] = dict(graphs=n, model_mismatches=len(mism), bad_heads=len(badhead), coq_failures=len(fails))
         out.coverage["traces_validated_against_impl"] = n
@@ -25,5 +33,74 @@ def run(out, explore=0):
                            "first": L.describe(items[k]) if k is not None else None, "coq_failures": fails[:2]}, no_failing_input=True)
 
 
+def cli_leg(out, n):
+    """Every FILE the CLI emits: one otel2puml run over a data set with 2-3 workflows (disjoint event types) must write one
+    .puml per workflow, each well-formed (V.Puml.Check.c05_ok evaluated in coqc) and naming exactly the event types of its
+    own workflow."""
+    import random
+    from concurrent.futures import ThreadPoolExecutor
+    from . import c14, clilib as C, storelib as S, pumllib as P
+    from .common import coq_list
+    rnd = random.Random(out.seed * 6151 + 5)
+    scs = []
+    while len(scs) < n:
+        sc = c14.gen_scenario(rnd, 2 * len(scs))       # k even: sync, default mapping, no padding every fifth
+        sc["padded"] = False
+        if len({e["name"] for e in sc["events"]}) >= 2:
+            scs.append(sc)
+
+    def one(sc):
+        with common.Scratch("c05c") as d:
+            data = C.write_dataset(d, sc["events"])
+            cfg = C.write_config(d, data, None, bs=sc["bs"], sequencer={"async_flag": sc["async_flag"]})
+            rc, tail = C.run_cli(["-o", str(d / "A"), "otel2puml", "-c", str(cfg)], d)
+            return dict(rc=rc, tail=tail[-300:] if rc else "", pumls=C.read_pumls(d / "A"))
+    with ThreadPoolExecutor(max_workers=common.NPROC) as ex:
+        results = list(ex.map(one, scs))
+    bad, rows, where = [], [], []
+    for k, (sc, r) in enumerate(zip(scs, results)):
+        want = {}
+        for e in sc["events"]:
+            want.setdefault(S.s_name(e["name"]), set()).add(S.s_ty(e["ty"]))
+        if r["rc"]:
+            bad.append((k, None, "otel2puml failed: " + r["tail"]))
+            continue
+        if set(r["pumls"]) != set(want):
+            bad.append((k, None, f"files written {sorted(r['pumls'])}, workflows in the input {sorted(want)}"))
+        for name, text in r["pumls"].items():
+            try:
+                toks = P.tokenize(text)
+            except ValueError as e:
+                bad.append((k, name, f"unlexable: {e}"))
+                continue
+            got = {a for t, a in toks if t == "TEvent"}
+            if name in want and got != want[name]:
+                bad.append((k, name, f"names {sorted(got)}, event types of the workflow {sorted(want[name])}"))
+            inter = P.Interner()
+            inter(name)
+            obs = coq_list([f"{inter(t)}%positive" for t in sorted(want.get(name, got))])
+            rows.append(f"({P.coq_tokens(toks, inter)}, {obs})")
+            where.append((k, name))
+    body = ";\n ".join(rows)
+    ok, o = common.coq_eval("C05cli", f"""From Coq Require Import List PArith Bool Arith. Import ListNotations.
+From V Require Import Puml.Ast Puml.Syntax Puml.Parse Puml.Check.
+Open Scope positive_scope.
+Definition cases : list (list token * list evt) := [
+ {body}].
+Definition idx {{A}} (f : A -> bool) (l : list A) : list nat := map fst (filter (fun p => negb (f (snd p))) (combine (seq 0 (length l)) l)).
+Eval vm_compute in (1%nat, idx (fun c => c05_ok 1 (snd c) (fst c)) cases).
+""") if rows else (True, "(1, [])")
+    l = common.parse_nat_list(o, "1") if ok else None
+    if l is None:
+        return dict(scs=scs, results=results, bad=bad, files=len(rows), coq_failure=o[-500:])
+    for i in l:
+        bad.append((where[i][0], where[i][1], "c05_ok fails (not one partition / ill-nested block / wrong or leaked event names)"))
+    return dict(scs=scs, results=results, bad=bad, files=len(rows), coq_failure=None)
+
+
 def replay(out, rp):
+    if rp.get("kind") == "emitted file wrong (CLI)":
+        print(rp["why"]); print(rp.get("output"))
+        out.coverage.update({"programs": 1, "disagreements_checked": 0, "samples": [rp["why"]]})
+        return
     L.replay_item(out, rp, ("c05",), verdict)
